@@ -23,6 +23,13 @@ CHECKS = {
         note=TRUST + "; assumed external contract of scipy.linalg.eigh; closed forms of norm/cross/det",
         technique="contract-based deductive verification (AST symbolic execution -> z3 VCs) + Lean lemma over contracts + bounded stand-in for float behaviour",
     ),
+    "C14": dict(
+        category="proof",
+        text="convert_to_segmented (generic-iteration rule over shells and contractions: per-shell outputs are the same object or one new shell per contraction with the same center, angular momentum, kind, exponents and coefficient column, in order), convert_to_unrestricted (all kinds and array contents, compared through the real getters incl. electron count and spin polarisation via summation lemmas), and the prepare_* protocol (identity short-cut, PrepareDumpError, exactly one PrepareDumpWarning, shallow copy) are verified for all inputs; idempotence lemmas over the contracts.",
+        design_ref="DESIGN.md 6/C14",
+        note=TRUST + "; 'identical overlap matrix' follows from equality of the basis functions in order + determinism, the integral code itself is C06; flattening lemma stated, not mechanised",
+        technique="contract-based deductive verification (AST symbolic execution -> z3 VCs, generic-iteration loop rule, induction lemmas) + bounded random bases/orbitals on the real functions",
+    ),
     "C11": dict(
         category="other",
         text="Inductive proof over all histories: a representation invariant on IOData's stored fields is shown to be established by the constructor and preserved by each of the 10 assignments and by reads, from an arbitrary state satisfying it (no bound on history length); the statement's clauses (charge = core charges - electrons, read-back, TypeError + unchanged observables on rejected assignments, orbitals take precedence, idempotent reads) are postconditions proved through the real getters/setters/validators with an attrs model. Category is `other` only because one obligation is refuted by an open known finding (stale lazy default of atcorenums), so discharged != obligations.",
